@@ -14,6 +14,7 @@ import (
 	"sync"
 	"time"
 
+	"github.com/ansible/receptor/pkg/verifhook"
 	"github.com/fsnotify/fsnotify"
 	"github.com/rogpeppe/go-internal/lockedfile"
 )
@@ -119,6 +120,9 @@ func (bwu *BaseWorkUnit) Init(w *Workceptor, unitID string, workType string, fs 
 	bwu.lastUpdateErrorLock = &sync.RWMutex{}
 	bwu.ctx, bwu.cancel = context.WithCancel(w.ctx)
 	bwu.fs = fs
+	if watcher == nil {
+		watcher = verifWatcher() // nil unless built with the verif tag and a factory is installed
+	}
 	if watcher != nil {
 		bwu.watcher = watcher
 	} else {
@@ -212,16 +216,20 @@ func (sfd *StatusFileData) saveToFile(file io.Writer) error {
 
 // Save saves status to a file.
 func (sfd *StatusFileData) Save(filename string) error {
+	verifhook.Step("save.lock", filename)
 	lockFile, err := sfd.lockStatusFile(filename)
 	if err != nil {
 		return err
 	}
 	defer sfd.unlockStatusFile(filename, lockFile)
+	verifhook.Step("save.open", filename)
 	file, err := os.OpenFile(filename, os.O_CREATE|os.O_WRONLY|os.O_TRUNC, 0o600)
 	if err != nil {
 		return err
 	}
+	verifhook.Step("save.write", filename)
 	err = sfd.saveToFile(file)
+	verifhook.Step("save.done", filename)
 	if err != nil {
 		serr := file.Close()
 
@@ -255,11 +263,13 @@ func (sfd *StatusFileData) loadFromFile(file io.Reader) error {
 
 // Load loads status from a file.
 func (sfd *StatusFileData) Load(filename string) error {
+	verifhook.Step("load.lock", filename)
 	lockFile, err := sfd.lockStatusFile(filename)
 	if err != nil {
 		return err
 	}
 	defer sfd.unlockStatusFile(filename, lockFile)
+	verifhook.Step("load.read", filename)
 	file, err := os.Open(filename)
 	if err != nil {
 		return err
@@ -288,11 +298,13 @@ func (bwu *BaseWorkUnit) Load() error {
 // UpdateFullStatus atomically updates the status metadata file.  Changes should be made in the callback function.
 // Errors are logged rather than returned.
 func (sfd *StatusFileData) UpdateFullStatus(filename string, statusFunc func(*StatusFileData)) error {
+	verifhook.Step("update.lock", filename)
 	lockFile, err := sfd.lockStatusFile(filename)
 	if err != nil {
 		return err
 	}
 	defer sfd.unlockStatusFile(filename, lockFile)
+	verifhook.Step("update.open", filename)
 	file, err := os.OpenFile(filename, os.O_CREATE|os.O_RDWR, 0o600)
 	if err != nil {
 		return err
@@ -322,11 +334,14 @@ func (sfd *StatusFileData) UpdateFullStatus(filename string, statusFunc func(*St
 	if err != nil {
 		return err
 	}
+	verifhook.Step("update.truncate", filename)
 	err = file.Truncate(0)
 	if err != nil {
 		return err
 	}
+	verifhook.Step("update.write", filename)
 	err = sfd.saveToFile(file)
+	verifhook.Step("update.done", filename)
 	if err != nil {
 		return err
 	}
@@ -471,6 +486,7 @@ func (bwu *BaseWorkUnit) Release(force bool) error {
 	defer bwu.statusLock.Unlock()
 	attemptsLeft := 3
 	for {
+		verifhook.Step("release.rm", bwu.UnitDir())
 		err := bwu.fs.RemoveAll(bwu.UnitDir())
 		if force {
 			break
